@@ -1,0 +1,29 @@
+//! Verification hooks.  This whole module is compiled only with `--cfg pdf_rs_pdf_verif`
+//! (it does not exist in a normal build).  It provides a process-global optional callback that
+//! is invoked at the synchronisation points of `StorageResolver::get`, so that an external test
+//! scheduler can enumerate thread interleavings deterministically.
+use std::sync::{Arc, RwLock};
+use crate::object::PlainRef;
+
+/// re-exported so that a test crate can implement `DataSize` for its own `Object` types
+pub use datasize::DataSize;
+
+/// `(site, key, type name of the requested object type)`
+pub type Callback = Arc<dyn Fn(&'static str, PlainRef, &'static str) + Send + Sync>;
+
+static CALLBACK: RwLock<Option<Callback>> = RwLock::new(None);
+
+/// install (or remove) the callback
+pub fn set_callback(cb: Option<Callback>) {
+    *CALLBACK.write().unwrap_or_else(|e| e.into_inner()) = cb;
+}
+
+/// called by the library at a yield point; does nothing unless a callback is installed
+#[inline]
+pub fn yield_point(site: &'static str, key: PlainRef, ty: &'static str) {
+    // the lock is released before the callback runs (the callback may block for a long time)
+    let cb = CALLBACK.read().unwrap_or_else(|e| e.into_inner()).clone();
+    if let Some(cb) = cb {
+        cb(site, key, ty);
+    }
+}
